@@ -609,6 +609,9 @@ def run(fx, chk, tier):
     from packs_common import compose
     compose(fx, chk, tier, "R-BOXWALK.v", "C10", ["R1"], keyfilter=lambda o: o["rule"] == "R1" and str(o["site"]) in walk_sites, floor=FLOOR_WALK_CALLS, what="fallible child consumers inside box-walk loops")
 
+    chk.rule("R-EXTENT", "every child size handed to a decoder or skip is bounded by its parent (C08 R-CHAIN instances): a decoder reads only inside its own extent, extents nest, so each input byte is transferred a bounded number of times")
+    compose(fx, chk, tier, "R-EXTENT", "C08", ["R-CHAIN"], floor=60, what="child-size hand-offs")
+
     def mem_in_region(g, region, depth=0):
         """does callee g loop over an in-memory collection on the side of the `trafs.is_empty()` split the caller's loop is on?
         (a lookup called from the non-fragmented branch never runs the callee's fragment search)"""
